@@ -3,7 +3,17 @@
  * GROUP selects which assertion group the query carries (one group per query keeps the
  * non-linear arithmetic small): 1 scale factors / ratios / amax / info,  2 apply step.
  */
+#ifdef VH_SINGLE
+#include "slu_mt_sdefs.h"
+#define double_t_ float
+#define GSEQU sgsequ
+#define LAQGS slaqgs
+#else
 #include "slu_mt_ddefs.h"
+#define double_t_ double
+#define GSEQU dgsequ
+#define LAQGS dlaqgs
+#endif
 #include "vh.h"
 int vh_log_i; double vh_log_d;
 #include "env_stubs.h"
@@ -16,17 +26,32 @@ int vh_log_i; double vh_log_d;
 #ifndef GROUP
 #define GROUP 1
 #endif
+#ifdef VH_SINGLE
+#define SMLNUM 1.1754943508222875e-38            /* 2^-126 */
+#define PREC 1.1920928955078125e-07              /* 2^-23 */
+#else
 #define SMLNUM 2.2250738585072014e-308           /* 2^-1022 */
 #define PREC 2.220446049250313e-16               /* 2^-52 */
+#endif
 int_t sp_ienv(int_t i) { return 1; }
 int xerbla_(char *s, int *i) { vh_assert(0, "xerbla_ called on valid arguments"); return 0; }
+#ifdef VH_SINGLE
+double slamch_(char *c)
+#else
 double dlamch_(char *c)
+#endif
 {
-    if (*c == 'S' || *c == 's') return SMLNUM;
-    if (*c == 'P' || *c == 'p') return PREC;
-    if (*c == 'E' || *c == 'e') return PREC / 2;
-    return 0.0;
+    /* returned through an input pinned by an assumption, not as a literal: cbmc would otherwise fold a later
+       float conversion of the constant in IEEE arithmetic (e.g. a double constant underflowing to 0.0f) */
+    double want = (*c == 'S' || *c == 's') ? SMLNUM : (*c == 'P' || *c == 'p') ? PREC : (*c == 'E' || *c == 'e') ? PREC / 2 : 0.0;
+    double k = vh_double();
+    vh_assume(k == want);
+    return k;
 }
+#ifdef VH_SINGLE
+/* the double-precision constants, should single-precision code ask for them by mistake */
+double dlamch_(char *c) { double want = (*c == 'S' || *c == 's') ? 2.2250738585072014e-308 : (*c == 'P' || *c == 'p') ? 2.220446049250313e-16 : 1.1102230246251565e-16; double k = vh_double(); vh_assume(k == want); return k; }
+#endif
 static int pat(int i, int j) { return (int)(((unsigned long)PAT >> (i + j * M)) & 1UL); }
 static double ab(double x) { return x < 0 ? -x : x; }
 static double mx(double a, double b) { return a > b ? a : b; }
@@ -34,18 +59,23 @@ static double mn(double a, double b) { return a < b ? a : b; }
 
 VH_MAIN
 {
-    static double a[M * N + 1], a0[M * N + 1], Ad[M][N], r[M], c[N];
+    static double_t_ a[M * N + 1], a0[M * N + 1], Ad[M][N], r[M], c[N];
     static int_t rowind[M * N + 1], colptr[N + 1];
     int i, j, k, nnz = 0;
     SuperMatrix A; static NCformat st;
-    double rowcnd = -1, colcnd = -1, amax = -1, bignum = 1.0 / SMLNUM;
+    double_t_ rowcnd = -1, colcnd = -1, amax = -1; double bignum = 1.0 / SMLNUM;
     int_t info = -9;
     for (j = 0; j < N; ++j) { colptr[j] = nnz; for (i = 0; i < M; ++i) { Ad[i][j] = 0; if (pat(i, j)) { rowind[nnz] = i; a[nnz] = vh_double(); a0[nnz] = a[nnz]; Ad[i][j] = a[nnz]; ++nnz; } } }
     colptr[N] = nnz;
     st.nnz = nnz; st.nzval = a; st.rowind = rowind; st.colptr = colptr;
-    A.Stype = SLU_NC; A.Dtype = SLU_D; A.Mtype = SLU_GE; A.nrow = M; A.ncol = N; A.Store = &st;
+#ifdef VH_SINGLE
+    A.Stype = SLU_NC; A.Dtype = SLU_S; A.Mtype = SLU_GE;
+#else
+    A.Stype = SLU_NC; A.Dtype = SLU_D; A.Mtype = SLU_GE;
+#endif
+    (void)0; A.Stype = SLU_NC; A.nrow = M; A.ncol = N; A.Store = &st;
 
-    dgsequ(&A, r, c, &rowcnd, &colcnd, &amax, &info);
+    GSEQU(&A, r, c, &rowcnd, &colcnd, &amax, &info);
 
     {
         double rm[M], cm[N], rmin = -1, rmax = 0, cmin = -1, cmax = 0, tmax = 0;
@@ -84,7 +114,7 @@ VH_MAIN
                 double small = SMLNUM / PREC, large = 1.0 / small;
                 int rows, cols;
                 vh_assume(info == 0);
-                dlaqgs(&A, r, c, rowcnd, colcnd, amax, &eq);
+                LAQGS(&A, r, c, rowcnd, colcnd, amax, &eq);
                 rows = !(rowcnd >= 0.1 && amax >= small && amax <= large);
                 cols = !(colcnd >= 0.1);
                 vh_assert(eq == (rows ? (cols ? BOTH : ROW) : (cols ? COL : NOEQUIL)), "the reported flag follows the documented ratio / magnitude thresholds");
